@@ -49,7 +49,7 @@ def main() -> int:
             return 2
         env = dict(os.environ, PYTHONPATH=os.path.join(wt, "src"), PYTHONDONTWRITEBYTECODE="1")
         if not a.skip_confirm:
-            d0 = sh(["/venv/bin/python", "-B", os.path.join(dst, "demo.py")], env=env, cwd="/dev/shm", timeout=300)
+            d0 = sh(["/venv/bin/python", "-B", os.path.join(dst, "demo.py")], env=env, cwd="/tmp", timeout=300)
             ran["demo_pristine_rc"] = d0.returncode
         ap_ = sh(["git", "-C", wt, "apply", os.path.join(dst, "patch.diff")])
         if ap_.returncode:
@@ -58,7 +58,7 @@ def main() -> int:
             return 2
         ran["applies"] = True
         if not a.skip_confirm:
-            d1 = sh(["/venv/bin/python", "-B", os.path.join(dst, "demo.py")], env=env, cwd="/dev/shm", timeout=300)
+            d1 = sh(["/venv/bin/python", "-B", os.path.join(dst, "demo.py")], env=env, cwd="/tmp", timeout=300)
             ran["demo_patched_rc"] = d1.returncode
             ran["demo_patched_tail"] = (d1.stdout + d1.stderr)[-400:]
             if a.tests:
